@@ -41,6 +41,24 @@ func runC19(r *Report) {
 	cm := r.need("R-C19-1", reposPkg, "HTTPDomainMappingRepository.CreateMapping")
 	if cm != nil {
 		nx := Calls(cm, false, "SetNX")
+		// the claim may live in a same-package helper (`indexKey, err := r.claimDomainIndex(...)`):
+		// the helper then must return success only after its single SetNX succeeded with ok==true,
+		// and hand back the key it claimed.
+		var viaHelper *ssa.Call
+		if len(nx) == 0 {
+			Instrs(cm, func(in ssa.Instruction) {
+				c, ok := in.(*ssa.Call)
+				if !ok || viaHelper != nil {
+					return
+				}
+				if h := c.Common().StaticCallee(); h != nil && h.Pkg == cm.Pkg && len(h.Blocks) > 0 && len(Calls(h, false, "SetNX")) == 1 {
+					viaHelper = c
+				}
+			})
+			if viaHelper != nil {
+				nx = Calls(viaHelper.Common().StaticCallee(), false, "SetNX")
+			}
+		}
 		if len(nx) != 1 {
 			r.Fail("R-C19-1", cm.Pos(), fmt.Sprintf("expected one SetNX claim in CreateMapping, found %d", len(nx)), "CreateMapping", "anchor")
 		} else {
@@ -49,7 +67,7 @@ func runC19(r *Report) {
 			r.Ob("R-C19-1", CallPos(claim), kc != nil && CalleeOf(kc).Name == "HTTPDomainIndexKey", "the claim is made on the domain index key", "CreateMapping", "claim-key")
 			indexKey := claim.Common().Args[0]
 			okv := extractOf(claim, 0)
-			claimed := func(b *ssa.BasicBlock) bool {
+			claimedDirect := func(b *ssa.BasicBlock) bool {
 				if !ErrOK(b, claim) {
 					return false
 				}
@@ -59,6 +77,32 @@ func runC19(r *Report) {
 					}
 				}
 				return false
+			}
+			claimed := claimedDirect
+			if viaHelper != nil {
+				h := viaHelper.Common().StaticCallee()
+				good, keyBack := true, -1
+				for _, ret := range Returns(h) {
+					if RetErrKind(ret) != "nil" {
+						continue
+					}
+					if !claimedDirect(ret.Block()) {
+						good = false
+					}
+					for i := range ret.Results {
+						if stripValue(RetVal(ret, i)) == stripValue(indexKey) {
+							keyBack = i
+						}
+					}
+				}
+				r.Ob("R-C19-1", CallPos(claim), good, "the claim helper "+h.Name()+" reports success only after its SetNX succeeded with ok==true", "CreateMapping", "claim-helper-success")
+				hc := viaHelper
+				claimed = func(b *ssa.BasicBlock) bool { return good && ErrOK(b, hc) }
+				if keyBack >= 0 {
+					if e := extractOf(hc, keyBack); e != nil {
+						indexKey = e
+					}
+				}
 			}
 			// writes of mapping data
 			nW := 0
@@ -371,37 +415,7 @@ func runC19(r *Report) {
 				if c == nil || ssa.Value(c) != src {
 					continue
 				}
-				st, rev, exp := false, false, false
-				for _, ft := range Facts(ret.Block()) {
-					if bo, ok := ft.Cond.(*ssa.BinOp); ok {
-						o := originSummary(bo.X)
-						if strings.Contains(o, "PortMapping.Status") && bo.Op == token.NEQ && !ft.Pol {
-							st = true
-						}
-					}
-					if _, f, _, ok := FieldOf(ft.Cond); ok && f == "IsRevoked" && !ft.Pol {
-						rev = true
-					}
-					if c, ok := stripValue(ft.Cond).(*ssa.Call); ok && CalleeOf(c).Is("time:Time.After") && !ft.Pol {
-						exp = true
-					}
-				}
-				// expiry may be vacuous when ExpiresAt == nil: accept the nil edge as well
-				if !exp {
-					for _, ft := range Facts(ret.Block()) {
-						if x, isnil, ok := ft.FactNil(); ok && isnil {
-							if _, f, _, ok := FieldOf(x); ok && f == "ExpiresAt" {
-								exp = true
-							}
-						}
-					}
-				}
-				for d := ret.Block(); d != nil && !exp; d = d.Idom() {
-					if !CanReachBlock(lg.Block(), d) {
-						break
-					}
-					exp = expiryJoin(d)
-				}
+				st, rev, exp := legacyFilters(ret.Block(), lg.Block(), lg, 2)
 				r.Ob("R-C19-4", ret.Pos(), st && rev && exp, fmt.Sprintf("a hit from %s is returned only if active (%v), not revoked (%v) and not expired (%v)", CalleeOf(lg).Name, st, rev, exp), "lookupMapping", "legacy-filters:"+CalleeOf(lg).Name)
 			}
 		}
@@ -452,7 +466,7 @@ func runC19(r *Report) {
 		Instrs(rg, func(in ssa.Instruction) {
 			if lk, ok := in.(*ssa.Lookup); ok {
 				if _, f, _, ok := FieldOf(lk.X); ok && f == "mappings" {
-					r.Ob("R-C19-5", lk.Pos(), ls.Held(in, "mu") == "W", "the 'already registered' lookup of Register runs in the write-locked section that performs the insert (claims of one name by different clients are serialised)", "DomainRegistry.Register", "claim-in-one-section")
+					r.Ob("R-C19-5", lk.Pos(), r.held(ls, in, "internal/httpservice", "DomainRegistry", "mu") == "W", "the 'already registered' lookup of Register runs in the write-locked section that performs the insert (claims of one name by different clients are serialised)", "DomainRegistry.Register", "claim-in-one-section")
 				}
 			}
 			if c, ok := in.(*ssa.Call); ok && CalleeOf(c).Is("DomainRegistry.Lookup") {
@@ -495,4 +509,83 @@ func expiryJoin(b *ssa.BasicBlock) bool {
 		}
 	}
 	return true
+}
+
+// legacyFilters: which of the three routing filters of a legacy PortMapping (active, not revoked,
+// not expired) are established at block at (looking back no further than the source lookup in
+// from). A filter may be established by a same-module helper whose success dominates at: it then
+// must hold at every nil-error return of the helper.
+func legacyFilters(at, from *ssa.BasicBlock, src ssa.CallInstruction, depth int) (st, rev, exp bool) {
+	for _, ft := range localFacts(at) {
+		if bo, ok := ft.Cond.(*ssa.BinOp); ok {
+			o := originSummary(bo.X)
+			if strings.Contains(o, "PortMapping.Status") && bo.Op == token.NEQ && !ft.Pol {
+				st = true
+			}
+			if strings.Contains(o, "PortMapping.Status") && bo.Op == token.EQL && ft.Pol {
+				st = true
+			}
+		}
+		if _, f, _, ok := FieldOf(ft.Cond); ok && f == "IsRevoked" && !ft.Pol {
+			rev = true
+		}
+		if c, ok := stripValue(ft.Cond).(*ssa.Call); ok && CalleeOf(c).Is("time:Time.After") && !ft.Pol {
+			exp = true
+		}
+		// expiry may be vacuous when ExpiresAt == nil: accept the nil edge as well
+		if x, isnil, ok := ft.FactNil(); ok && isnil {
+			if _, f, _, ok := FieldOf(x); ok && f == "ExpiresAt" {
+				exp = true
+			}
+		}
+	}
+	for d := at; d != nil && !exp; d = d.Idom() {
+		if from != nil && !CanReachBlock(from, d) {
+			break
+		}
+		exp = expiryJoin(d)
+	}
+	if (st && rev && exp) || depth <= 0 {
+		return
+	}
+	// helpers whose success dominates at
+	for d := at; d != nil; d = d.Idom() {
+		if from != nil && d != from && !CanReachBlock(from, d) {
+			break
+		}
+		for _, in := range d.Instrs {
+			c, ok := in.(*ssa.Call)
+			if !ok {
+				continue
+			}
+			h := c.Common().StaticCallee()
+			if h == nil || len(h.Blocks) == 0 || h.Pkg == nil || !strings.HasPrefix(h.Pkg.Pkg.Path(), Module) || !ErrOK(at, c) {
+				continue
+			}
+			if src != nil {
+				about := false
+				for _, a := range c.Call.Args {
+					if valueFromCall(a, src) {
+						about = true
+					}
+				}
+				if !about {
+					continue
+				}
+			}
+			hs, hr, he, n := true, true, true, 0
+			for _, ret := range Returns(h) {
+				if RetErrKind(ret) != "nil" {
+					continue
+				}
+				n++
+				a, b, e := legacyFilters(ret.Block(), nil, nil, depth-1)
+				hs, hr, he = hs && a, hr && b, he && e
+			}
+			if n > 0 {
+				st, rev, exp = st || hs, rev || hr, exp || he
+			}
+		}
+	}
+	return
 }
